@@ -211,6 +211,22 @@ def build(tier, ctx):
     for seed in seeds:
         for i in range(0, len(labelled), chunk):
             tasks.append({"seed": seed, "trees": labelled[i:i + chunk]})
+    # wave 14: a name that is the joined spelling of two (three) other names
+    # of the same family, for the separators code commonly joins with; the
+    # joined name is placed before, between and after its parts
+    joined = []
+    for sep in (",", " ", "", "_", "|", ";", "->", ", ", "+", "\n"):
+        a, b, c = "A", "B", "C"
+        ab, ba, abc = a + sep + b, b + sep + a, a + sep + b + sep + c
+        for names in ([a, b, ab, ba, c, abc, "D", "E"],
+                      [ab, a, b, c, abc, ba, "D", "E"],
+                      [a, ab, b, abc, c, ba, "D", "E"],
+                      [c, ba, ab, a, b, abc, "D", "E"]):
+            for s in shapes:
+                joined.append(label(s, names))
+    joined = list(dict.fromkeys(joined))
+    for i in range(0, len(joined), 24):
+        tasks.append({"seed": 0, "trees": joined[i:i + 24]})
     # incomplete evidence (first sentence of the property): every proper
     # non-empty sub-family of the outcome family of a tree, soundness only
     all_below, loo_below = (7, 16) if tier == "quick" else (8, 32)
